@@ -560,6 +560,10 @@ class MessageManager(ClientLike):
 
         for n in range(len(subscribers)):
             module = subscribers[n]
+            # Skip modules that were removed while this message was being forwarded
+            # (e.g. by a failed CLIENT_CLOSED / FAILED_MESSAGE delivery nested in this loop)
+            if module.conn not in self.modules:
+                continue
             if module.conn in self.wlist:
                 try:
                     if (
